@@ -50,6 +50,8 @@ def build_agent(sc, events, proto):
         ag = make_agent({}, proto)
         ag.faulty = {conc(a): ("eomv" if b == [0] else conc(b)) for a, b in sc["f"]}
         ag.val = lambda oid: enc_int(token(absoid(oid)))
+    elif sc.get("toks"):
+        ag = make_agent({conc(o): enc_int(t) for o, t in zip(sc["db"], sc["toks"])}, proto)
     else:
         ag = make_agent({conc(o): enc_int(token(o)) for o in sc["db"]}, proto)
     cut = sc.get("cut", "full")
